@@ -167,7 +167,7 @@ func (e *Exec) intrinsic(name string, fn *types.Func, recvExpr ast.Expr, call *a
 		}
 	}
 	// the injected clock
-	if fn.Pkg() != nil && strings.HasSuffix(fn.Pkg().Path(), "toolkit-core/clock") {
+	if fn.Pkg() != nil && (strings.HasSuffix(fn.Pkg().Path(), "toolkit-core/clock") || isClockIface(fn)) {
 		sig := fn.Type().(*types.Signature)
 		if sig.Recv() != nil {
 			if recvExpr != nil {
@@ -312,7 +312,7 @@ func (e *Exec) lock(recvExpr ast.Expr, c *Ctx, call *ast.CallExpr) {
 		hw := e.heldArr(st, owner.T.Name, mu+"!w")
 		e.set(st, "$held!"+owner.T.Name+"."+mu+"!w", Term{fmt.Sprintf("(store %s %s true)", hw.S, owner.S), hw.T})
 	}
-	m := e.prog.monitors[owner.T.Name+"."+mu]
+	m := e.prog.monitors[baseName(owner.T.Name)+"."+mu]
 	if m == nil {
 		return
 	}
@@ -367,7 +367,7 @@ func (e *Exec) unlock(recvExpr ast.Expr, c *Ctx, call *ast.CallExpr) {
 	}
 	st := c.st
 	h := e.heldArr(st, owner.T.Name, mu)
-	m := e.prog.monitors[owner.T.Name+"."+mu]
+	m := e.prog.monitors[baseName(owner.T.Name)+"."+mu]
 	if m != nil {
 		e.safetyAssert(c, "unlock-held", fmt.Sprintf("(select %s %s)", h.S, owner.S), exprText(recvExpr), call)
 		e.monitorInv(m, owner, st, c.fr, true, e.prog.pos(call))
@@ -383,7 +383,7 @@ func (e *Exec) guardWrite(c *Ctx, base Term, field string, n ast.Node) {
 		return
 	}
 	for _, m := range e.prog.monitors {
-		if m.Struct != base.T.Name {
+		if m.Struct != baseName(base.T.Name) {
 			continue
 		}
 		for _, pf := range m.Protects {
@@ -418,7 +418,7 @@ func (e *Exec) guardWriteThrough(x ast.Expr, c *Ctx) {
 
 func (e *Exec) protectedField(structName, field string) (*Monitor, bool) {
 	for _, m := range e.prog.monitors {
-		if m.Struct != structName {
+		if m.Struct != baseName(structName) {
 			continue
 		}
 		for _, pf := range m.Protects {
@@ -436,7 +436,7 @@ func (e *Exec) guardedBy(c *Ctx, base Term, field string, n ast.Node) {
 		return
 	}
 	for _, m := range e.prog.monitors {
-		if m.Struct != base.T.Name {
+		if m.Struct != baseName(base.T.Name) {
 			continue
 		}
 		for _, pf := range m.Protects {
@@ -675,7 +675,7 @@ func (e *Exec) callEffects(call *ast.CallExpr, info *types.Info, subst map[*type
 		pp = fn.Pkg().Path()
 	}
 	switch {
-	case strings.HasSuffix(pp, "toolkit-core/clock") || name == "time.Now" || name == "time.Since" || name == "time.Sleep" || name == "time.After" || name == "time.Until":
+	case strings.HasSuffix(pp, "toolkit-core/clock") || isClockIface(fn) || name == "time.Now" || name == "time.Since" || name == "time.Sleep" || name == "time.After" || name == "time.Until":
 		ef.time = true
 		return
 	case pp == "time" || pp == "fmt" || pp == "errors" || pp == "math" || pureStd[pp]:
@@ -686,7 +686,7 @@ func (e *Exec) callEffects(call *ast.CallExpr, info *types.Info, subst map[*type
 				bt := e.prog.TypeOf(tv.Type, subst)
 				if bt.K == KRef && bt.Name != "" {
 					ef.heap["$held!"+bt.Name+"."+se.Sel.Name] = &Type{K: KGMap, Key: tInt, Elem: tBool}
-					if m := e.prog.monitors[bt.Name+"."+se.Sel.Name]; m != nil {
+					if m := e.prog.monitors[baseName(bt.Name)+"."+se.Sel.Name]; m != nil {
 						ef.time = true
 						for _, pf := range m.Protects {
 							if path := e.findField(bt, pf, 0); path != nil {
@@ -843,4 +843,20 @@ func (e *Exec) havocEffects(st *State, fr *Frame, ef *Effects) {
 	if ef.time {
 		e.advanceTime(st, "0")
 	}
+}
+
+// isClockIface: a method of an interface named Clock / ClockI (the engine's injected clocks).
+func isClockIface(fn *types.Func) bool {
+	sig, ok := fn.Type().(*types.Signature)
+	if !ok || sig.Recv() == nil {
+		return false
+	}
+	n, ok := types.Unalias(sig.Recv().Type()).(*types.Named)
+	if !ok {
+		return false
+	}
+	if _, isIface := n.Underlying().(*types.Interface); !isIface {
+		return false
+	}
+	return n.Obj().Name() == "Clock" || n.Obj().Name() == "ClockI"
 }
